@@ -7,6 +7,7 @@ import (
 	"go/token"
 	"go/types"
 	"math/big"
+	"os"
 	"reflect"
 	"regexp"
 	"sort"
@@ -8372,6 +8373,52 @@ func ruleEmittedFlagsNamesOnlyWhenComplete(c *core.Ctx) {
 							collect(fl.Body, depth+1)
 							return false
 						}
+						// a block helper of the package (`writeBlock(w, "if (x) {", "}", body)`): its constant strings and
+						// its callback, in argument order
+						if f := core.Callee(info, x); f != nil && f.Pkg() == p.Types {
+							hasFunc := false
+							for _, a := range x.Args {
+								if _, ok := ast.Unparen(a).(*ast.FuncLit); ok || lits[identObj(info, a)] != nil {
+									hasFunc = true
+								}
+							}
+							if hasFunc {
+								// openers (and other text) first, then the callbacks, then the strings that only close braces
+								strOf := func(a ast.Expr) (string, bool) {
+									if tv, ok := info.Types[a]; ok && tv.Value != nil && tv.Value.Kind() == constant.String {
+										return constant.StringVal(tv.Value), true
+									}
+									if ce, ok := a.(*ast.CallExpr); ok && len(ce.Args) > 0 {
+										if g := core.Callee(info, ce); g != nil && core.FullName(g) == "fmt.Sprintf" {
+											if tv, ok := info.Types[ce.Args[0]]; ok && tv.Value != nil && tv.Value.Kind() == constant.String {
+												return constant.StringVal(tv.Value), true
+											}
+										}
+									}
+									return "", false
+								}
+								closer := func(t string) bool { return strings.Contains(t, "}") && !strings.Contains(t, "{") }
+								for _, a := range x.Args {
+									if t, ok := strOf(ast.Unparen(a)); ok && !closer(t) {
+										ems = append(ems, em{t, a.Pos()})
+									}
+								}
+								for _, a := range x.Args {
+									a = ast.Unparen(a)
+									if fl, ok := a.(*ast.FuncLit); ok {
+										collect(fl.Body, depth+1)
+									} else if fl := lits[identObj(info, a)]; fl != nil {
+										collect(fl.Body, depth+1)
+									}
+								}
+								for _, a := range x.Args {
+									if t, ok := strOf(ast.Unparen(a)); ok && closer(t) {
+										ems = append(ems, em{t, a.Pos()})
+									}
+								}
+								return false
+							}
+						}
 						for _, a := range x.Args {
 							if fl := lits[identObj(info, a)]; fl != nil {
 								collect(fl.Body, depth+1)
@@ -8383,6 +8430,11 @@ func ruleEmittedFlagsNamesOnlyWhenComplete(c *core.Ctx) {
 			})
 		}
 		collect(d.Body, 0)
+		if os.Getenv("VERIF_DEBUG_GF1") != "" && d.Name.Name == "writeFlagsConverters" {
+			for _, e := range ems {
+				fmt.Fprintf(os.Stderr, "GF1 em %q\n", e.t)
+			}
+		}
 		inToJson := false
 		var open []string // headers of the emitted blocks that are open
 		for _, e := range ems {
